@@ -806,15 +806,20 @@ fn gen_contains(r: &mut Rng) -> String {
             _ => ops.push(RawOp::Sf(ORIENTED | (m.f & MERGE))),
         }
     }
-    // sometimes an orientation-preserving `scaled` (all components positive, or exactly two negative: a half-turn composed
-    // with a positive scale), uniform or not: the scaled mesh is still closed and outward oriented
-    if r.below(3) == 0 {
-        let lat = r.bool();
-        let mut sc: Vec<f64> = (0..3).map(|_| if lat { *r.pick(&[0.5, 1.0, 2.0, 3.0]) } else { r.uniform(0.3, 3.0) }).collect();
-        if r.below(4) == 0 { let k = sc[0]; sc = vec![k; 3]; }
-        if r.bool() { let keep = r.below(3) as usize; for k in 0..3 { if k != keep { sc[k] = -sc[k]; } } }
-        let pos = r.below(ops.len() as u64 + 1) as usize;
-        ops.insert(pos, RawOp::Sc(sc));
+    // one time in two a `scaled`, uniform or not, with ANY of the 8 sign patterns: every mesh here is ORIENTED, so `scaled`
+    // flips the winding back under a mirroring scale (odd number of negative factors) and the scaled mesh must again be a
+    // closed outward-oriented mesh whose inside test agrees with the crossing parity; sometimes two scales in a row
+    // (mirror twice = orientation preserved through two reversals)
+    if r.bool() {
+        for _ in 0..(if r.below(4) == 0 { 2 } else { 1 }) {
+            let lat = r.bool();
+            let mut sc: Vec<f64> = (0..3).map(|_| if lat { *r.pick(&[0.5, 1.0, 2.0, 3.0]) } else { r.uniform(0.3, 3.0) }).collect();
+            if r.below(4) == 0 { let k = sc[0]; sc = vec![k; 3]; }
+            let signs = r.below(8);
+            for k in 0..3 { if (signs >> k) & 1 == 1 { sc[k] = -sc[k]; } }
+            let pos = r.below(ops.len() as u64 + 1) as usize;
+            ops.insert(pos, RawOp::Sc(sc));
+        }
     }
     // the final buffers (real code) only serve to place the query points away from the surface
     let fm = h3::run_ops(&m, &ops).expect("closed mesh history");
